@@ -33,6 +33,7 @@ package alloctxn
 //@   modifies abits, atxn.allocBnums, atxn.allocBnums[*]
 //@   ensures [G4-range] result == 0 || validBlk(result) @C15 @C04
 //@   ensures [G4-wasfree] result != 0 ==> !old(abits)[theBalloc][result] && abits[theBalloc][result] @C15 @C05
+//@   ensures [G4-monotone] (forall n uint64 :: old(abits)[theBalloc][n] ==> abits[theBalloc][n]) && abits[theIalloc] == old(abits)[theIalloc] @C05
 //@   ensures [lists-stable] listsStable(atxn)
 //@   ensures [lists-allocB] allocBValid(atxn)
 //@   ensures [lists-freeB] freeBValid(atxn)
@@ -57,6 +58,7 @@ package alloctxn
 //@   ghostexit freshinum = ite(result != 0, store(freshinum, result, true), freshinum)
 //@   ensures [G4-inumrange] result == 0 || validInum(result) @C15 @C04 @C11
 //@   ensures [G4-inumwasfree] result != 0 ==> !old(abits)[theIalloc][result] && abits[theIalloc][result] @C15 @C05
+//@   ensures [G4-monotone] (forall n uint64 :: old(abits)[theIalloc][n] ==> abits[theIalloc][n]) && abits[theBalloc] == old(abits)[theBalloc] @C05
 //@   ensures result != 0 ==> freshinum[result]
 //@   ensures listsValid(atxn) && listsStable(atxn)
 //@   ensures [F5-recorded] result != 0 ==> len(atxn.allocInums) == old(len(atxn.allocInums)) + 1 && atxn.allocInums[old(len(atxn.allocInums))] == result @C05 @C09
@@ -80,10 +82,15 @@ package alloctxn
 //@ spec (*AllocTxn).PreCommit
 //@   props C01 C11
 //@   requires atxnInv(atxn) && listsValid(atxn) && lastst == 0
+//@   requires [R3-once] cphase == 0 @C01
+//@   modifies cphase
+//@   ghostexit cphase = 1
+//@   ensures cphase == 1
 
 //@ spec (*AllocTxn).PostCommit
-//@   props C05 C11 C10
+//@   props C05 C11 C10 C01
 //@   requires atxnInv(atxn) && listsValid(atxn)
+//@   requires [R3-after-commit] cphase == 2 || (len(atxn.freeInums) == 0 && len(atxn.freeBnums) == 0) @C01 @C05
 //@   preserves [allocInv] allocInv() @C15 @C04
 //@   modifies abits
 //@   loop 0 invariant allocInv()
